@@ -32,12 +32,14 @@ theorem calcRamp_total (a b d : Bytes) (dur : Int) : calcRamp a b d dur ≠ .cra
       · simp
       · exact newDistribution_total _ _
 
-theorem calcGaussian_total (f sd : Int) (w d : Bytes) : calcGaussian f sd w d ≠ .crash := by
+theorem calcGaussian_total (f sd : Int) (w d : Bytes) (g : Bool) : calcGaussian f sd w d g ≠ .crash := by
   unfold calcGaussian
   split
   · split
     · simp
-    · exact newDistribution_total _ _
+    · split
+      · simp
+      · exact newDistribution_total _ _
   · simp
 
 theorem ok_not_crash {α} (v : α) : (Res.ok v : Res α) ≠ .crash := by simp
@@ -55,7 +57,7 @@ theorem trigger_total (a : Args) (m : Int) : trigger a m ≠ .crash := by
           bind_not_crash _ _ (calcRamp_total _ _ _ _) (fun _ => ok_not_crash _))
       · split
         · exact bind_not_crash _ _ (durFlag_total _ _) (fun _ => bind_not_crash _ _ (durFlag_total _ _) (fun _ =>
-            bind_not_crash _ _ (calcGaussian_total _ _ _ _) (fun _ => ok_not_crash _)))
+            bind_not_crash _ _ (calcGaussian_total _ _ _ _ _) (fun _ => ok_not_crash _)))
         · split <;> simp
 
 /-- C14 (flag level, totality): no flag combination crashes the command — it is refused or accepted. -/
@@ -92,7 +94,7 @@ theorem trigger_ok (a : Args) (m : Int) (i : Int) (u : Bool) (h : trigger a m = 
           obtain ⟨sd, _, h⟩ := bind_ok _ _ _ h
           obtain ⟨v, hv, h⟩ := bind_ok _ _ _ h
           injection h with h; injection h with h1 h2; subst h1; subst h2
-          exact Or.inl ⟨rfl, calcGaussian_pos _ _ _ _ _ hv⟩
+          exact Or.inl ⟨rfl, calcGaussian_pos _ _ _ _ _ _ hv⟩
         · split at h
           · injection h with h; injection h with h1 h2; subst h1; subst h2
             exact Or.inr ⟨rfl, rfl⟩
